@@ -99,6 +99,26 @@ fn check_id(ctx: &mut Ctx, v: u32) {
         if HpoTermId::from(v) != id || id.as_u32() != v {
             return Some(("HpoTermId::from_u32/as_u32", "from_u32/as_u32/From<u32> disagree", format!("{v}")));
         }
+        // the remaining conversions of the same number / the same canonical text
+        if HpoTermId::from(v as u64) != id || HpoTermId::from(v as usize) != id || (v <= u16::MAX as u32 && HpoTermId::from(v as u16) != id) {
+            return Some(("HpoTermId::from(u64 | usize | u16)", "integer conversions disagree with from_u32", format!("{v}")));
+        }
+        if HpoTermId::from(text.clone()) != id {
+            return Some(("HpoTermId::from(String)", "from(render(id)) != id", format!("{v}")));
+        }
+        if !(id == *text.as_str()) || !(id == text.as_str()) {
+            return Some(("HpoTermId: PartialEq<str>", "id != its own rendering", format!("{v}")));
+        }
+        if id.to_usize() != v as usize {
+            return Some(("HpoTermId::to_usize", "to_usize is not the number of the id", format!("{v} -> {}", id.to_usize())));
+        }
+        // the order of ids is the order of their numbers (sorted id groups rely on it)
+        if v < u32::MAX {
+            let next = HpoTermId::from_u32(v + 1);
+            if !(id < next) || id == next || id.cmp(&next) != std::cmp::Ordering::Less {
+                return Some(("HpoTermId: Ord", "order of ids is not the order of their numbers", format!("{v} vs {}", v + 1)));
+            }
+        }
         None
     });
     match r {
